@@ -52,3 +52,33 @@ theorem C16_delay_registers (s : Server) (i : Nat) (hf : (getObj s i).will.flag 
 example : (processDisconnect (init {}) 0 0 none).2.2 = none := by decide
 
 end Mochi.Broker
+
+namespace Mochi.Broker
+
+def runSrv (s : Server) (ops : List Op) : Server := ops.foldl (fun s op => (step s op).1) s
+
+/-- **F16a (schedule).** Client `c1` (will delay 50 s, session expiry 100 s) loses its connection; its
+    handler is parked right after the read loop; the same id reconnects with Clean Start 0 (session
+    present — `willDelayed.Delete` runs); the old handler resumes and registers the delayed will; when
+    the delay has elapsed the housekeeping publishes the will although the session was resumed.
+    (Replayed on the real broker on every run: corpus/C16.) -/
+theorem C16_cancelled_by_resume_counterexample :
+    let s := runSrv (init {})
+      [.connect 1 { ver := 5, clean := false, id := [99, 49], sei := some 100,
+                    will := some { topic := [120], payload := [119], delay := 50 } },
+       .dropHoldEarly 1,
+       .connect 2 { ver := 5, clean := false, id := [99, 49], sei := some 100 },
+       .release 1]
+    s.willDelayed.length = 1 ∧ ((tickWills s (NOW + 3000)).2.filter fun o => match o with | .event _ => true | _ => false).length = 1 := by
+  decide
+
+/-- in the sequential order (the old handler finishes before the reconnect) the will is cancelled -/
+example :
+    let s := runSrv (init {})
+      [.connect 1 { ver := 5, clean := false, id := [99, 49], sei := some 100,
+                    will := some { topic := [120], payload := [119], delay := 50 } },
+       .drop 1,
+       .connect 2 { ver := 5, clean := false, id := [99, 49], sei := some 100 }]
+    s.willDelayed.length = 0 := by decide
+
+end Mochi.Broker
